@@ -30,6 +30,7 @@ class Gen:
         self.lines = []
         self.nstr = 0
         self.anon = 0
+        self.inp = False
 
     def new(self, kind, size=0):
         self.age += 1
@@ -56,7 +57,7 @@ class Gen:
         choices = [("newarr", 8), ("newmap", 5), ("newcls", 3), ("newbuf", 2), ("assign", 10), ("free", 6),
                    ("aset", 10), ("aget", 6), ("mset", 8), ("mdel", 4), ("newobj", 4), ("setvar", 6), ("getvar", 4),
                    ("dest", 2), ("cleanup", 2), ("drop", 1), ("call", 5), ("rmcall", 2), ("sweep", 3), ("sent", 4),
-                   ("rmsent", 2), ("newfun", 4), ("fill", 3)]
+                   ("rmsent", 2), ("newfun", 4), ("fill", 3), ("inp", 4), ("input", 3), ("deadcall", 3)]
         if m == "unit":
             choices += [("newstr", 6), ("newmstr", 3), ("push", 6), ("pushr", 3), ("pop", 6), ("popto", 3), ("oref", 1),
                         ("clones", 1), ("unclone", 1)]
@@ -239,6 +240,54 @@ class Gen:
                 c.items = {i: S[t] for i in range(n)}
             S[d] = c
             self.emit("fill %d %d %d" % (d, n, t))
+        elif k == "inp":
+            ao = self.alive_objs()
+            o = r.choice(ao) if ao and r.chance(9, 10) else r.below(NOBJ)
+            if o in ao and not self.inp:
+                self.inp = True
+            self.emit("inp %d %d %d" % (o, self.pick_slot(), self.pick_slot()))
+        elif k == "input":
+            self.inp = False
+            self.emit("input")
+        elif k == "deadcall":
+            # the pattern "pending call_out / sentence / input_to with captured values, owner destructed, then the
+            # time passes / the input arrives": the entries are dropped by the sweep, not called
+            ao = self.alive_objs()
+            if not ao:
+                return
+            o = r.choice(ao)
+            for q in r.shuffle(list(range(NCALL)))[:r.range(1, 3)]:
+                if self.calls[q] is None:
+                    self.calls[q] = (o, 0, None)
+                    self.emit("call %d %d %d %d %d" % (q, o, r.below(2), self.pick_slot(), self.pick_slot()))
+            if r.chance(1, 2):
+                q = r.below(NSENT)
+                if self.sents[q] is None:
+                    self.emit("sent %d %d %d %d" % (q, o, self.pick_slot(), self.pick_slot()))
+            if r.chance(1, 2) and not self.inp:
+                self.emit("inp %d %d %d" % (o, self.pick_slot(), self.pick_slot()))
+                self.inp = True
+            for d in r.shuffle(list(range(NSLOT)))[:r.range(0, 4)]:
+                self.slots[d] = None
+                self.emit("free %d" % d)
+            self.obj[o].size = 1
+            for q in range(NSENT):
+                if self.sents[q] == o:
+                    self.sents[q] = None
+            self.emit("dest %d" % o)
+            tail = ["sweep"] + (["cleanup"] if r.chance(1, 2) else []) + (["input"] if r.chance(2, 3) else [])
+            for x in r.shuffle(tail):
+                if x == "cleanup":
+                    for oo in range(NOBJ):
+                        if self.obj[oo] is not None and self.obj[oo].size == 1:
+                            self.obj[oo].size = 2
+                            self.obj[oo].items = {}
+                elif x == "sweep":
+                    for q in range(NCALL):
+                        self.calls[q] = None
+                else:
+                    self.inp = False
+                self.emit(x)
         elif k == "clones":
             n = r.range(1, 40)
             self.anon += n
@@ -262,6 +311,8 @@ class Gen:
         steps.append("sweep")
         for q in range(NSENT):
             steps.append("rmsent %d" % q)
+        if r.chance(1, 2):
+            steps.append("input")
         for d in range(NSLOT):
             steps.append("free %d" % d)
         if self.mode == "unit":
@@ -274,7 +325,7 @@ class Gen:
         for o in range(NOBJ):
             steps += ["drop %d" % o]
         # values kept only by variables of destructed objects / callbacks are gone after the last cleanup
-        steps += ["sweep", "cleanup"]
+        steps += ["input", "sweep", "cleanup"]
         if self.mode == "unit" and self.anon:
             steps += ["unclone %d" % self.anon]
         self.lines += steps
@@ -325,7 +376,9 @@ class C06(Prop):
     rule = ("cases = corpus + known-finding inputs + boundary list + seeded random histories (about 40 operations + "
             "tear-down) over 10 value slots, 4 objects, 4 pending call_outs, 4 sentences: allocation of arrays / mappings / "
             "classes / buffers / strings / function pointers, assignment, element / node / variable stores and loads, "
-            "stack pushes and pops, call_outs whose callbacks keep their argument, add_action carry-over arguments, "
+            "stack pushes and pops, call_outs whose callbacks keep their argument, add_action and input_to carry-over "
+            "arguments, owners destructed while call_outs / sentences / an input_to are pending (dropped by the sweep, "
+            "refused by the input), "
             "destruct + deferred cleanup, errors thrown under live frames, 20 efun/operator groups with results dropped; "
             "half in unit mode (real C primitives), half in lpc mode (real interpreter); 15% of the cases may build "
             "cyclic containers; a case is non-trivial when it has >= 2 executed operations; distinct = distinct "
@@ -334,7 +387,8 @@ class C06(Prop):
                    "including every error path, is observed on the generated programs only (20 efun/operator groups), not proved",
                    "program_t.ref is modelled only as a counter beside the proved heap model (Drive.lean, ProgRef): its wrap is an "
                    "open known finding; func_ref, inherit references and total_num_prog_blocks are not modelled",
-                   "input_to sentences need an interactive user: the sentence path is exercised through add_action only",
+                   "one interactive user (create_test_interactive of the repository), input_to with flag 0 only; get_char "
+                   "shares the code path but is not called",
                    "the fault-injection hook H2 of C05 is not used: error paths are errors raised by LPC code (nested frames, "
                    "inside efun callbacks, under catch)",
                    "tot_alloc_sentence is a high-water mark (sentences are recycled through a free list) and is not compared",
@@ -345,7 +399,8 @@ class C06(Prop):
         self.conf = E.make_mudlib(ctx.rundir)
 
     def run_impl(self, ctx, cases):
-        return E.run_harness(self.exe, self.conf, cases, ctx.rundir)
+        # generous per-case limit: the heavy cases (65 537 clones, 70 000 holders) must not depend on machine speed
+        return E.run_harness(self.exe, self.conf, cases, ctx.rundir, timeout=3600, args=("--timeout", "900"))
 
     def canon(self, lines):
         out = []
@@ -394,6 +449,22 @@ class C06(Prop):
         # program_t.ref: exact below the wrap (the wrap itself is the open known finding program-ref-wrap)
         mk("program-ref-300-clones", "unit", ["newobj 0", "clones 300", "dest 0", "unclone 5", "cleanup", "unclone 295",
                                               "drop 0"])
+        for mode in ("unit", "lpc"):
+            # pending call_outs with arguments whose owner is destructed before they are due: dropped by the sweep
+            mk("callout-owner-destructed-" + mode, mode,
+               ["newobj 0", "newobj 1", "newarr 0 3", "newmap 1", "newcls 2", "newfun 3 1 0", "mset 1 0 0", "aset 2 0 1",
+                "call 0 0 1 0 1", "call 1 0 0 2 3", "call 2 0 1 3 3", "call 3 1 1 0 2", "free 0", "free 1", "free 2", "free 3",
+                "dest 0", "sweep", "cleanup", "getvar 4 1 3", "free 4", "dest 1", "cleanup", "drop 0", "drop 1"])
+            mk("callout-owner-destructed-cleanup-first-" + mode, mode,
+               ["newobj 2", "fill 0 7 5", "newmap 1", "mset 1 0 0", "call 0 2 1 1 0", "call 3 2 0 0 0", "free 0", "free 1",
+                "dest 2", "cleanup", "drop 2", "sweep"])
+            # add_action / input_to callbacks with captured arguments whose creator is destructed
+            mk("sentence-owner-destructed-" + mode, mode,
+               ["newobj 0", "newarr 0 2", "newmap 1", "sent 0 0 0 1", "sent 3 0 1 1", "inp 0 1 0", "free 0", "free 1",
+                "dest 0", "cleanup", "input", "drop 0"])
+            mk("input_to-delivered-" + mode, mode,
+               ["newobj 1", "newarr 0 2", "newfun 1 1 0", "inp 1 0 1", "inp 1 1 1", "free 0", "free 1", "input", "input",
+                "inp 1 0 0", "dest 1", "input", "cleanup", "drop 1"])
         mk("string-saturation", "unit", ["newstr 0 c06sat"] + big + ["fill 5 9534 0", "assign 6 0", "newstr 7 c06sat"]
            + rel + ["free 6", "free 7"])
         mk("malloc-string-shared", "unit", ["newmstr 0 c06m", "assign 1 0", "push 0", "newarr 2 2", "aset 2 0 0",
@@ -431,7 +502,37 @@ class C06(Prop):
 
     def histogram(self, cases, impl):
         h = {"ops_executed": 0, "ops_skipped": 0, "cases_unit": 0, "cases_lpc": 0, "uaf_outcomes": 0,
-             "max_ref_seen": 0, "by_op": {}}
+             "max_ref_seen": 0, "calls_dropped_by_sweep_owner_destructed": 0, "inputs_to_destructed_owner": 0,
+             "sentences_freed_by_destruct": 0, "by_op": {}}
+        for c in cases:
+            pend, dead, inp, sents = {}, set(), None, {}
+            for line, res in zip(c.lines[1:], impl.get(c.id, [])):
+                if not res.startswith("ok"):
+                    continue
+                w = line.split()
+                if w[0] == "call":
+                    pend[w[1]] = w[2]
+                elif w[0] == "rmcall":
+                    pend.pop(w[1], None)
+                elif w[0] == "sent":
+                    sents[w[1]] = w[2]
+                elif w[0] == "rmsent":
+                    sents.pop(w[1], None)
+                elif w[0] == "inp":
+                    inp = w[1]
+                elif w[0] == "dest":
+                    dead.add(w[1])
+                    h["sentences_freed_by_destruct"] += sum(1 for o in sents.values() if o == w[1])
+                    sents = {k: o for k, o in sents.items() if o != w[1]}
+                elif w[0] == "newobj":
+                    dead.discard(w[1])
+                elif w[0] == "sweep":
+                    h["calls_dropped_by_sweep_owner_destructed"] += sum(1 for o in pend.values() if o in dead)
+                    pend = {}
+                elif w[0] == "input":
+                    if inp in dead:
+                        h["inputs_to_destructed_owner"] += 1
+                    inp = None
         for c in cases:
             if c.lines and c.lines[0] == "mode lpc":
                 h["cases_lpc"] += 1
